@@ -385,7 +385,7 @@ func (e *engine) serverPhase() {
 		note := describeMutation(s, c.spec)
 		rf := reproFile{Key: key, Entry: "server-sign", Kind: "tar", Module: s.Module, Ext: ".tar", Seed: s.Name, Mutation: c.spec, Note: note, Message: msg, Frames: frames, Size: len(body)}
 		rf.Desc = fmt.Sprintf("POST /sign?sigtype=%s to a real daemon (server/daemon.New: http.Server with the default timeouts %s) with the %d-byte upload stream of seed %s (%s) mutated by %s [%s] (the engine's %s entry on the same stream: %s %s): %s - the server process ended (%v): %s",
-			s.Module, timeouts, len(body), s.Name, s.Origin, c.spec, note, e.entryName(in.caseID, in.entry), in.class, in.sig, how, srv.waitErr, msg)
+			s.Module, timeouts, len(body), s.Name, s.Origin, shortSpec(c.spec), note, e.entryName(in.caseID, in.entry), in.class, in.sig, how, srv.waitErr, msg)
 		if len(frames) > 0 {
 			rf.Desc += " at " + strings.Join(frames[:min(8, len(frames))], " < ")
 		}
@@ -440,7 +440,7 @@ func (e *engine) serverPhase() {
 			byStatus["no-answer"]++
 			run.Outcome("server:no-answer-process-alive")
 			if len(noAnswer) < 8 {
-				noAnswer = append(noAnswer, fmt.Sprintf("%s %s (%d bytes): %s", s.Name, c.spec, len(body), shortErr(err)))
+				noAnswer = append(noAnswer, fmt.Sprintf("%s %s (%d bytes): %s", s.Name, shortSpec(c.spec), len(body), shortErr(err)))
 			}
 			how = "no answer (" + shortErr(err) + ")"
 			if ne, ok := err.(net.Error); ok && ne.Timeout() {
@@ -480,7 +480,7 @@ func (e *engine) serverPhase() {
 			if len(body) <= 64<<10 {
 				rf.Input = base64.StdEncoding.EncodeToString(body)
 			}
-			rf.Desc = fmt.Sprintf("POST /sign?sigtype=%s to a real daemon with the %d-byte upload stream of seed %s mutated by %s: %s; the process is alive but the well-formed request that followed got no answer within %s, twice (%s)", s.Module, len(body), s.Name, c.spec, how, hangTimeout, shortErr(perr))
+			rf.Desc = fmt.Sprintf("POST /sign?sigtype=%s to a real daemon with the %d-byte upload stream of seed %s mutated by %s: %s; the process is alive but the well-formed request that followed got no answer within %s, twice (%s)", s.Module, len(body), s.Name, shortSpec(c.spec), how, hangTimeout, shortErr(perr))
 			run.Outcome("server:alive-but-silent")
 			run.Violation(key, rf.Desc, rf)
 			srv.kill()
